@@ -35,6 +35,26 @@ class Series:
     def __iter__(self):
         return iter(self.vals)
 
+    # element-wise comparisons / boolean algebra (masks for row selection: df[df['zone'] == z])
+    def _ew(self, o, f):
+        ov = o.vals if isinstance(o, Series) else [o] * len(self.vals)
+        return Series([f(a, b) for a, b in zip(self.vals, ov)], name=self.name, index=self.index)
+
+    def __eq__(self, o): return self._ew(o, lambda a, b: a == b)
+    def __ne__(self, o): return self._ew(o, lambda a, b: a != b)
+    def __lt__(self, o): return self._ew(o, lambda a, b: a < b)
+    def __le__(self, o): return self._ew(o, lambda a, b: a <= b)
+    def __gt__(self, o): return self._ew(o, lambda a, b: a > b)
+    def __ge__(self, o): return self._ew(o, lambda a, b: a >= b)
+    def __and__(self, o): return self._ew(o, lambda a, b: symnp.band(symnp.bt(a), symnp.bt(b)))
+    def __or__(self, o): return self._ew(o, lambda a, b: symnp.bor(symnp.bt(a), symnp.bt(b)))
+    def __invert__(self): return Series([symnp.bnot(symnp.bt(a)) for a in self.vals], name=self.name, index=self.index)
+    __hash__ = None
+
+    def isin(self, values):
+        values = list(values.flat_values()) if hasattr(values, 'flat_values') else list(values)
+        return Series([symnp.bor(*[symnp.bt(a == v) for v in values]) if values else False for a in self.vals], name=self.name, index=self.index)
+
     @property
     def values(self):
         return symnp.asarray(self.vals)
@@ -105,6 +125,10 @@ class DataFrame:
     def __getitem__(self, k):
         if isinstance(k, list):
             return DataFrame({c: self._d[c] for c in k})
+        if isinstance(k, Series):
+            # boolean mask: keep the rows whose mask entry is true (each symbolic entry is a fork)
+            rows = [i for i, b in enumerate(k.vals) if bool(symnp.mkbool(symnp.bt(b)))]
+            return DataFrame({c: [self._d[c][i] for i in rows] for c in self.columns})
         return Series(self._d[k], name=k)
 
     def __setitem__(self, k, v):
